@@ -233,6 +233,16 @@ def expanded(func: ast.AST, expr: ast.AST, depth: int = 4) -> ast.AST:
         def visit_Name(self, node):
             if isinstance(node.ctx, ast.Load) and self.d > 0:
                 v = single_value(defs, node.id)
+                if v is None:
+                    # `a, b = V` (the only binding of b): b is V[1], or the element when V is a display
+                    ds = defs.get(node.id, [])
+                    if len(ds) == 1 and ds[0][3] == "assign" and ds[0][1] is not None and len(ds[0][2]) == 1 and ds[0][2][0] >= 0:
+                        i = ds[0][2][0]
+                        val = ds[0][1]
+                        if isinstance(val, (ast.Tuple, ast.List)) and i < len(val.elts) and not any(isinstance(e, ast.Starred) for e in val.elts):
+                            v = val.elts[i]
+                        elif isinstance(val, (ast.Name, ast.Attribute, ast.Subscript)):
+                            v = ast.Subscript(value=copy.deepcopy(val), slice=ast.Constant(value=i), ctx=ast.Load())
                 if v is not None and not any(isinstance(x, ast.Name) and x.id == node.id for x in ast.walk(v)):
                     return R(self.d - 1).visit(copy.deepcopy(v))
             return node
